@@ -107,6 +107,7 @@ ApplyEff(S, ef) ==
                               ELSE [q |-> AppR(S.q, Head(S.dq)), dq |-> Tail(S.dq), nid |-> S.nid,
                                     mark |-> <<"recall", Head(S.dq)[1], Head(S.dq)[2]>>]
     [] ef[1] = "scribble"  -> [q |-> S.q, dq |-> S.dq, nid |-> S.nid, mark |-> <<"scribble", ef[2], 0>>]
+    [] ef[1] = "other"     -> [q |-> S.q, dq |-> S.dq, nid |-> S.nid, mark |-> <<"other", ef[2], 0>>]     \* an event dispatched into another chart object: no effect on this one
     [] ef[1] = "cs"        -> [q |-> S.q, dq |-> S.dq, nid |-> S.nid, mark |-> <<"cs", "", 0>>]        \* current_state() asked from inside a handler: no effect
     [] ef[1] = "raise"     -> [q |-> S.q, dq |-> S.dq, nid |-> S.nid, mark |-> <<"raise", "", 0>>]   \* the handler fails here
 
